@@ -325,10 +325,22 @@ def signal_scenario(ctx, seed):
         cons.pop("shell_prefix", None)
         cons.pop("stubborn", None)
         cons["vtool_args"] = ["--sleep-after", "1500", "--announce", "run%s.flag" % cons["id"][1:]]
+    # the signal arrives while ninja is NOT waiting for its commands: the first command to finish has printed more than the pipe
+    # behind ninja's stdout takes, nobody reads that pipe for the moment, so ninja sits in write() when the signal is sent
+    # (a terminal that is slow or stopped with Ctrl-S, a pager, a CI log collector that is behind)
+    busy = None
+    if sig != signal.SIGKILL and not group and rng.random() < 0.4:
+        cand = [s_ for s_ in sc["stmts"] if s_["id"] != "link" and not s_.get("stubborn")]
+        if cand:
+            busy = rng.choice(cand)
+            busy["vtool_args"] = ["--sleep-after", "0", "--announce", "run%s.flag" % busy["id"][1:], "--say-big", "BUSY%d:%d" % (seed % 1000, rng.choice((6000, 14000)))]
+            for s_ in sc["stmts"]:
+                if s_ is not busy and s_["id"] != "link" and not s_.get("stubborn"):
+                    s_["vtool_args"] = [("1500" if a_ in ("150", "300", "600") else a_) for a_ in s_["vtool_args"]]
     t = e2e.Tree(sc)
     if any("--keep-times" in s_.get("vtool_args", []) for s_ in sc["stmts"]):
         ctx.count("signal_runs_with_time_preserving_tools")
-    rep = {"seed": seed, "signal": int(sig), "manifest": open(t.path("build.ninja")).read()}
+    rep = {"seed": seed, "signal": int(sig), "manifest": open(t.path("build.ninja")).read(), "busy": busy["id"] if busy else None}
     what = "signal scenario %d (%s)" % (seed, sig.name)
     try:
         if rng.random() < 0.5:
@@ -345,10 +357,27 @@ def signal_scenario(ctx, seed):
         p = t.popen(["-j%d" % rng.choice((1, 2, 4))])
         # wait until at least one command provably runs
         victim = rng.randrange(n) if cons is None else int(cons["id"][1:])
+        if busy is not None:
+            victim = int(busy["id"][1:])
         t0 = time.time()
         while time.time() - t0 < 30 and not os.path.exists(t.path("run%d.flag" % victim)) and p.poll() is None:
             time.sleep(0.002)
         time.sleep(rng.random() * 0.1)
+        in_write = False
+        if busy is not None:
+            # wait until ninja provably sits in write(2) on its stdout (it has reaped the talkative command and prints its output)
+            t1 = time.time()
+            while time.time() - t1 < 20 and p.poll() is None:
+                try:
+                    f_ = open("/proc/%d/syscall" % p.pid).read().split()
+                    if f_ and f_[0] == "1" and f_[1] in ("0x1", "0x2"):
+                        in_write = True
+                        break
+                except (OSError, IndexError):
+                    pass
+                time.sleep(0.005)
+            ctx.count("signal_runs_ninja_blocked_in_write" if in_write else "signal_runs_ninja_never_blocked_in_write")
+        t_sig = None
         try:
             if group and p.poll() is None:
                 ctx.count("signal_runs_to_whole_group")
@@ -362,8 +391,11 @@ def signal_scenario(ctx, seed):
                 os.kill(p.pid, signal.SIGCONT)
             else:
                 os.kill(p.pid, sig)
+                t_sig = time.monotonic()
         except OSError:
             pass
+        if busy is not None:
+            time.sleep(0.02 + rng.random() * 0.1)       # the signal is there; only now does somebody read ninja's output again
         try:
             so, se = p.communicate(timeout=60)
         except subprocess.TimeoutExpired:
@@ -397,9 +429,21 @@ def signal_scenario(ctx, seed):
         if s2:
             ctx.violation("C07/sanitizer-on-interrupt/" + s2, "%s: %s" % (what, txt[-1500:]), rep)
             return
+        # Did the signal come too late to matter?  Decided on the commands' own clock stamps, not on the outcome: when the last
+        # command (link) had not even begun at the moment kill() returned, ninja still had to wait for at least one command
+        # after the signal was there - it cannot have finished the build without noticing the interrupt.
+        link_started = min([e["t"] for e in ev if e["e"] == "S" and e["id"] == "prog"] or [None], key=lambda x: (x is None, x))
+        if sig != signal.SIGKILL and t_sig is not None and rc == 0 and (link_started is None or link_started > t_sig):
+            ctx.nontrivial((seed, int(sig), "ignored"))
+            ctx.violation("C07/interrupt-ignored/%s%s" % (sig.name, "/ninja-busy-printing" if in_write else ""),
+                          "%s: the signal was sent %.3f s before the last command even started, ninja carried on and exited 0 (%s)"
+                          % (what, (link_started - t_sig) if link_started else -1, txt[-200:]), rep)
+            return
         if rc == 0 and not killed:
             ctx.count("signal_lost_race_build_completed")
         else:
+            if in_write:
+                ctx.count("interrupted_runs_while_ninja_was_printing")
             ctx.nontrivial((seed, int(sig), tuple(sorted(killed))))
             ctx.count("interrupted_runs_" + sig.name)
             if rc != 130:
